@@ -1,0 +1,23 @@
+//go:build !verif
+
+// Package verifhook exposes observation points used by the external verification
+// harness. With the verif build tag off every function is an empty inlinable stub.
+package verifhook
+
+// ParseIter is a no-op without the verif build tag.
+func ParseIter(stackLen, nonTerminals int) {}
+
+// Shift is a no-op without the verif build tag.
+func Shift(tokType int, terminal bool) {}
+
+// ImplicitAnd is a no-op without the verif build tag.
+func ImplicitAnd() {}
+
+// Reduce is a no-op without the verif build tag.
+func Reduce(before, after int) {}
+
+// Reducer is a no-op without the verif build tag.
+func Reducer(index int) {}
+
+// Render is a no-op without the verif build tag.
+func Render(op int, param bool) {}
